@@ -15,7 +15,7 @@ VARIABLE k
 
 Tables == JsonDeserialize("beh.json")
 
-OInit == k = 0 /\ cs = [shape |-> "", check |-> "", effects |-> <<>>, ctx |-> ""]
+OInit == k = 0 /\ cs = [shape |-> "", check |-> "", effects |-> <<>>, ctx |-> "", occ |-> Same]
 ONext == k < Len(Tables) /\ k' = k + 1 /\ UNCHANGED cs
 OSpec == OInit /\ [][ONext]_<<k, cs>>
 
